@@ -346,3 +346,25 @@ Section BMProofs.
     apply heqb_spec in Y. exfalso. apply (Hn u); [left; reflexivity | congruence].
   Qed.
 End BMProofs.
+
+(* the script form executed by the correspondence run: its final state is the history's state, and
+   each recorded observation is bm_get / bm_mem / the previous value at the state reached so far *)
+Lemma bm_script_state T khtbl chtbl is : forall s,
+  snd (bm_script T khtbl chtbl s is)
+  = fold_left (bm_step (py_eq T) (py_lt T) (lookup_val khtbl) (lookup_hash chtbl)) (bm_ops_of is) s.
+Proof.
+  induction is as [|i is IH]; intro s; [reflexivity|].
+  destruct i; simpl; rewrite IH; reflexivity.
+Qed.
+
+Lemma bm_script_obs T khtbl chtbl i is s :
+  fst (bm_script T khtbl chtbl s (i :: is)) =
+  match i with
+  | BIUpdate k vo => fst (bm_script T khtbl chtbl (snd (bm_update (py_eq T) (py_lt T) (lookup_val khtbl) (lookup_hash chtbl) k vo s)) is)
+  | BIGetAndUpdate k vo =>
+      BOOpt (fst (bm_update (py_eq T) (py_lt T) (lookup_val khtbl) (lookup_hash chtbl) k vo s))
+      :: fst (bm_script T khtbl chtbl (snd (bm_update (py_eq T) (py_lt T) (lookup_val khtbl) (lookup_hash chtbl) k vo s)) is)
+  | BIGet k => BOOpt (bm_get (py_eq T) (lookup_val khtbl) (lookup_hash chtbl) k s) :: fst (bm_script T khtbl chtbl s is)
+  | BIMem k => BOBool (bm_mem (py_eq T) (lookup_val khtbl) (lookup_hash chtbl) k s) :: fst (bm_script T khtbl chtbl s is)
+  end.
+Proof. destruct i; reflexivity. Qed.
